@@ -19,6 +19,12 @@ Require Import V.Proofs.C02OracleProofs.
 Require Import V.Proofs.C02Words.
 Require Import V.Proofs.C02Trace.
 Require Import V.Proofs.C02OracleFull.
+Require Import V.Model.Appender.
+Require Import V.Model.Publication.
+Require Import V.Proofs.C02SeqTerm.
+Require Import V.Proofs.C02Solo.
+Require Import V.Proofs.C02Collapse.
+Require Import V.Proofs.C02CollapseRun.
 Require Import V.Proofs.C02Example.
 Open Scope Z_scope.
 
@@ -230,3 +236,61 @@ Example C02_example_oracle : exists s th gh tr,
 Proof. destruct ex_reach as (s & th & gh & tr & R & D & Hpub & Hres). exists s, th, gh, tr.
   repeat (split; [assumption|]).
   apply (C02_oracle ex_cfg ex_wf ex_orig s th gh tr 2%nat _ _ ex_offers ex_bytes R D eq_refl Hpub). Qed.
+
+(* ---------------------------------------------------------------------------------------------------------------------
+   COLLAPSE: one publisher machine running alone IS the sequential Publication model of C01 / C04.
+
+   sim c s lg  (Proofs/C02Collapse.v): the sequential log `lg` (Model/LogBase.v: structured terms) and the shared state `s` of the
+   thread model carry the same geometry, count, raw tails, limit, is-connected flag, and every partition has the same dump
+   (render_term = render_mem), with nothing rendered that an append at the tail would cut.
+   att c t s l s' l': thread t takes admissible steps, nobody else moves, until its current attempt records a result.
+   ssteps: any number of admissible steps of thread t alone.  rv0: the reserved-value supplier returning 0 (offer's default).
+   Geometry: wf_cfg and MTU <= 2^28 (the i32 arithmetic of the length computations of term_appender.rs is then exact in
+   both build modes, so the statement holds for Debug and Release alike). *)
+
+(* one attempt of the machine = one call of Publication.pub_offer on a corresponding log: same result, corresponding logs *)
+Theorem C02_collapse_attempt : forall c, wf_cfg c -> c_mtu c <= 268435456 -> forall m t s lg cl l s' l',
+  SI c s -> sim c s lg -> p_pc l = PReadLimit -> mlen l < two31 -> att c t s l s' l' ->
+  exists lg' r, pub_offer m rv0 (mkPub lg false cl) (cur_msg l) = (mkPub lg' false cl, r) /\ l' = finish r l /\ sim c s' lg' /\ SI c s'.
+Proof. exact collapse_attempt. Qed.
+Print Assumptions C02_collapse_attempt.
+
+(* the whole thread body, for every message list and every budget: every complete run of the machine alone from the log the
+   driver hands over gives exactly the results of the sequential model folded over the list with the same retry loop, and a
+   corresponding log (hence the same dump: count, raw tails, every non-zero word of the three partitions) *)
+Theorem C02_collapse : forall c, wf_cfg c -> c_mtu c <= 268435456 -> forall m t msgs budget limit s' l',
+  (forall msg, In msg msgs -> FragArith.zlen msg < two31) ->
+  ssteps c t (init_shared c limit) (p_start msgs budget []) s' l' -> p_pc l' = PDone ->
+  exists lg', seq_thread m (init_log c limit) None msgs budget [] = (lg', p_res l') /\ sim c s' lg' /\
+    log_dump lg' = (sh_count s', [sh_tail s' 0; sh_tail s' 1; sh_tail s' 2],
+                    [render_mem c (sh_mem s') 0; render_mem c (sh_mem s') 1; render_mem c (sh_mem s') 2]).
+Proof. intros c W Wm m t msgs budget limit s' l' Hm H Hd.
+  destruct (collapse_solo c W t Wm m msgs budget limit s' l' Hm H Hd) as (lg' & E & M).
+  exists lg'. split; [assumption|]. split; [assumption|]. apply sim_dump. assumption. Qed.
+Print Assumptions C02_collapse.
+
+(* the same through the scheduler: in a system whose only publisher is thread t, EVERY schedule and crash points whose steps
+   are admissible is a run of that machine alone; if it ends with the thread done, results and log are the sequential ones *)
+Theorem C02_collapse_sched : forall c, wf_cfg c -> c_mtu c <= 268435456 -> forall m t msgs budget limit stop sched th,
+  (forall msg, In msg msgs -> FragArith.zlen msg < two31) ->
+  only_pub t th (p_start msgs budget []) ->
+  adm_sched c stop sched (init_shared c limit, th, (fun _ => O), []) ->
+  let '(s', th', g', tr') := run_sched (tstep c) stop sched (init_shared c limit, th, (fun _ => O), []) in
+  forall l', th' t = TPub l' -> p_pc l' = PDone ->
+  exists lg', seq_thread m (init_log c limit) None msgs budget [] = (lg', p_res l') /\ sim c s' lg'.
+Proof. intros c W Wm m t msgs budget limit stop sched th Hm Ho Ha.
+  pose proof (run_sched_ssteps c t stop sched _ th (fun _ => O) [] _ Ho Ha) as H.
+  destruct (run_sched (tstep c) stop sched (init_shared c limit, th, fun _ : nat => 0%nat, [])) as [[[s' th'] g'] tr'].
+  destruct H as (l1 & (Ho1 & _) & Hss). intros l' Hl' Hd. rewrite Ho1 in Hl'. inversion Hl'; subst l1.
+  exact (collapse_solo c W t Wm m msgs budget limit s' l' Hm Hss Hd). Qed.
+Print Assumptions C02_collapse_sched.
+
+(* satisfiable: one publisher alone offers three messages (the second is fragmented), all accepted; the sequential model
+   returns the same three positions *)
+Example C02_example_collapse : exists s' l' lg',
+  ssteps ex_solo_cfg 0 (init_shared ex_solo_cfg 4096) (p_start ex_solo_msgs 5 []) s' l' /\ p_pc l' = PDone /\
+  seq_thread Debug (init_log ex_solo_cfg 4096) None ex_solo_msgs 5 [] = (lg', [Ok 1184; Ok 1376; Ok 1408]) /\ sim ex_solo_cfg s' lg'.
+Proof. destruct ex_solo as (s' & l' & H & Hd & Hr).
+  destruct (C02_collapse ex_solo_cfg ex_solo_wf ltac:(vm_compute; discriminate) Debug 0%nat ex_solo_msgs 5%nat 4096 s' l') as (lg' & E & M & _); try assumption.
+  { intros msg Hin. unfold ex_solo_msgs in Hin. repeat (destruct Hin as [<- | Hin]; [vm_compute; reflexivity|]). destruct Hin. }
+  exists s', l', lg'. rewrite Hr in E. auto. Qed.
